@@ -232,7 +232,9 @@ func runC28(c *core.Ctx) error {
 
 	// cross-check with really generated code (tl2gen --language=go): the model's bytes of every old value are read and
 	// rewritten by the old code (binds the spec's wire model) and by the new code (the property itself)
-	{
+	if !c.Thorough() {
+		c.Set("generated_code_pairs_checked", "thorough tier only (generation and build take about a minute)")
+	} else {
 		isBad := map[int]bool{}
 		for _, bi := range bad {
 			isBad[evCase[bi-1]] = true
